@@ -4,17 +4,20 @@
 (***************************************************************************)
 EXTENDS Integers, Json, TLC
 B == {0, 1}
-Ion == {[mode |-> "ion", diffuse |-> d, continuous |-> cs, trackers |-> tr, plot |-> pl, copy |-> cp, nthr |-> t] :
-          d \in B, cs \in B, tr \in B, pl \in B, cp \in {0, 2}, t \in {1, 2, 4}}
+\* gadget: HDF5 snapshots instead of ASCII ones; big: one subgrid of 24^3 cells (the writers move data in blocks of 10 000 cells)
+Ion == {[mode |-> "ion", diffuse |-> d, continuous |-> cs, trackers |-> tr, plot |-> pl, copy |-> cp, nthr |-> t, gadget |-> ga,
+         big |-> bg] :
+          d \in B, cs \in B, tr \in B, pl \in B, cp \in {0, 2}, t \in {1, 2, 4}, ga \in B, bg \in B}
 \* first: "first snapshot" (only with snaps = 1); maxb: "maximum number of backups" (only in restart mode)
+\* sn (rhdrad only): the only source is a supernova that goes off at once, so that later radiation steps find no luminous source
 \* aniso: 16x8x8 cells in 2x2x2 subgrids (cells per subgrid differ between the axes) instead of 8x8x8
 Rhd == {[mode |-> m, live |-> lv, ionsurf |-> iv, mask |-> mk, turb |-> tb, snaps |-> sn, first |-> fs, maxb |-> mb,
-         nthr |-> t, aniso |-> an] :
+         nthr |-> t, aniso |-> an, sn |-> s] :
           m \in {"rhd", "rhdrad", "restart"}, lv \in B, iv \in B, mk \in B, tb \in B, sn \in B,
-          fs \in {0, 2, 9}, mb \in {1, 2, 3}, t \in {1, 2, 4}, an \in B} \ 
+          fs \in {0, 2, 9}, mb \in {1, 2, 3}, t \in {1, 2, 4}, an \in B, s \in B} \ 
        {c \in [mode : {"rhd", "rhdrad", "restart"}, live : B, ionsurf : B, mask : B, turb : B, snaps : B,
-               first : {0, 2, 9}, maxb : {1, 2, 3}, nthr : {1, 2, 4}, aniso : B] :
-            (c.snaps = 0 /\ c.first # 0) \/ (c.mode # "restart" /\ c.maxb # 1) \/ (c.mode = "rhdrad" /\ c.aniso = 1)}
+               first : {0, 2, 9}, maxb : {1, 2, 3}, nthr : {1, 2, 4}, aniso : B, sn : B] :
+            (c.snaps = 0 /\ c.first # 0) \/ (c.mode # "restart" /\ c.maxb # 1) \/ (c.mode = "rhdrad" /\ c.aniso = 1) \/ (c.mode # "rhdrad" /\ c.sn = 1)}
 ASSUME PrintT(<<"CONFIGS", ToJson(Ion \cup Rhd)>>)
 VARIABLE x
 Init == x = 0
